@@ -13,7 +13,7 @@ import (
 
 // Trap classes shared by every engine adapter.
 const (
-	TrapDivZero   = "integer-divide-by-zero"
+	TrapDivZero = "integer-divide-by-zero"
 	// Signed division overflow, truncation of an out-of-range float and truncation of a NaN are ONE
 	// class: V8 words the last two identically ("float unrepresentable in integer range"), wazero
 	// words the first two identically ("integer overflow", as the specification's test suite does).
